@@ -332,7 +332,7 @@ def file_line(filestate, compress, nr):
     return f"file:paths={','.join(map(str, result_paths(filestate, nr)))};step={T(filestate['step'])};n={n}"
 
 
-def model_lines(inst, raw_before, log, raw_after, res_after, compress, filestate, nr, ns, tag, fileraw=None, stats=None, prior=()):
+def model_lines(inst, raw_before, log, raw_after, res_after, compress, filestate, nr, ns, tag, fileraw=None, stats=None, prior=(), diverged=None):
     """Protocol lines (request, expected reply) for one instance at one save/load point: the whole history of the instance
     (earlier sessions included) for the instance-level machine, the last session for the save/load round trip."""
     req, exp = ["new", f"cfgs {int(SAVES_AFTER_EVERY_STEP_REQUEST[0])}"], ["ok", "ok"]
@@ -347,6 +347,16 @@ def model_lines(inst, raw_before, log, raw_after, res_after, compress, filestate
     if tag == "server":
         req.append("saveall"); exp.append("ok")
     req.append("saved"); exp.append(file_line(filestate, compress, nr))
+    if tag == "server":
+        # what the instance holds after POST /load-state: the stored session, whatever happened to the live one since the save
+        req.append(f"cfgl {int(LOAD_INSTALLS_STORED[0])}"); exp.append("ok")
+        if diverged and "end" in diverged:
+            req.append("endsession"); exp.append("ok")
+        if diverged and "begin" in diverged:
+            req.append("ibegin 9990,9991 0 1 1"); exp.append("ok")
+        req.append("loadstate"); exp.append("ok")
+        req.append("live")
+        exp.append("live=none" if raw_after is None else file_line(raw_after, False, nr).replace("file:", "live:"))
     req.append("state"); exp.append(fmt_session(raw_before, nr, ns))
     b = "1" if compress else "0"
     try:
@@ -375,6 +385,7 @@ def model_lines(inst, raw_before, log, raw_after, res_after, compress, filestate
 
 
 PK_STATS = {"files": 0, "files_with_backrefs": 0, "backrefs": 0}
+LOAD_INSTALLS_STORED = [True]                             # probed: POST /load-state installs the stored session also for a live instance
 SAVES_AFTER_EVERY_STEP_REQUEST = [True]                   # probed: every step-advancing request is followed by a write of the instance
 SAVE_STATE_SKIPS_SESSIONLESS = [False]                    # probed: GET /save-state works while an instance has no session yet
 KEEPS_EMPTY_MANAGERS = [False]                           # probed: the compressed format keeps {"nosuch": {}} in a step's results
@@ -568,6 +579,7 @@ def _run_case(case, base):
             post(srv.client, "/start-instance")           # an instance that never begins a session: nothing to externalise,
                                                           # and it must not keep /save-state from saving the others
         srv2 = None
+        diverged = {}
         for route in ("instance", "server", "startup") if case.get("startup", True) else ("instance", "server"):
             before = [observe(srv, iid) for iid in ids]
             rs = srv                                      # the server the restored instances are read from
@@ -590,6 +602,20 @@ def _run_case(case, base):
                                      {"instance": n, "route": route}))
                 if viol:
                     break
+                if route == "server" and case.get("diverge"):
+                    # the live session moves away from the stored one WITHOUT a write (end-session / begin-session / keep-alive do not
+                    # save): the whole-server load must install the STORED session all the same
+                    for n, iid in enumerate(ids):
+                        kind = case["diverge"][n % len(case["diverge"])]
+                        row("live session changed between save and load-state: " + kind)
+                        if "end" in kind:
+                            post(srv.client, f"/{iid}/end-session")
+                        if "begin" in kind:
+                            post(srv.client, f"/{iid}/begin-session", {"scenario_managers": ["smB"], "scenarios": ["a"], "equations": ["c", "g"],
+                                                                       "settings": {"smB": {"a": {"constants": {"c": 4.0}}}}})
+                        if kind == "keep-alive":
+                            post(srv.client, f"/{iid}/keep-alive")
+                        diverged[n] = kind
                 if route == "server":
                     r = post(srv.client, "/load-state")
                     if r.status_code != 200:
@@ -621,7 +647,9 @@ def _run_case(case, base):
                 st_before, raw_before, res_before = before[n]
                 c = classify(st_before, with_clock(canon_state(raw_after), rs, iid), res_before, res_after, case["compress"])
                 if c is not None:
-                    viol.append((c[0], f"{'compressed' if case['compress'] else 'plain'} mode, {route} save/load: {c[1]}",
+                    viol.append((c[0], f"{'compressed' if case['compress'] else 'plain'} mode, {route} save/load: {c[1]}" +
+                                 (f" (between GET /save-state and POST /load-state the live session was changed by {diverged[n]}, which writes nothing: "
+                                  f"the load has to install the stored session)" if route == "server" and n in diverged else ""),
                                  {"instance": n, "route": route}))
                 if route == "startup":
                     # the time of the next step: the restored session goes on exactly at the saved clock
@@ -634,7 +662,8 @@ def _run_case(case, base):
                     continue
                 try:
                     q, e = model_lines(case["instances"][n], raw_before, logs[n], raw_after, res_after, case["compress"],
-                                       read_file_state(path, iid), nr, ns, route, read_file_raw(path, iid), PK_STATS, priors[n])
+                                       read_file_state(path, iid), nr, ns, route, read_file_raw(path, iid), PK_STATS, priors[n],
+                                       diverged.get(n) if route == "server" else None)
                 except ValueError as err:
                     q, e = ["begin - 0 0 0"], [f"harness: {err}"]
                 req += q; exp += e
@@ -777,7 +806,8 @@ def gen_case(rng, quick):
         if rng.chance(1, 4):
             inst["sms"] = inst["sms"] + ["nosuch"]        # a manager named in the session that is not registered: {} in every step's results
     return {"spec": spec, "compress": rng.chance(2, 3), "instances": insts, "idle": rng.chance(1, 3), "startup": rng.chance(1, 2),
-            "timeouts": rng.chance(1, 2), "twin": rng.chance(1, 6)}
+            "timeouts": rng.chance(1, 2), "twin": rng.chance(1, 6),
+            "diverge": rng.choice([None, None, ["end"], ["begin"], ["end+begin", "keep-alive"], ["keep-alive", "end"]])}
 
 
 def gen_session_step(rng, sms, scs):
@@ -881,6 +911,7 @@ def exhaustive_cases(quick):
         for odd in (False, True):
             for compress in ((True, False) if not quick else ((j + odd) % 2 == 0,)):
                 out.append({"spec": {"start": start, "dt": dt, "stop": round(start + 16 * dt, 6)}, "compress": compress, "timeouts": odd, "twin": odd and j % 2 == 0,
+                            "diverge": [["end"], ["begin"], ["end+begin"], None][(j + odd) % 4],
                             "instances": [{"sms": ["smA", "smB"], "scs": ["a", "b"], "eqs": ["s", "g"],
                                            "steps": copy.deepcopy(mixed[1:] if odd else mixed),
                                            "extra": [copy.deepcopy(alpha[0])] if odd else [copy.deepcopy(alpha[0]), copy.deepcopy(alpha[4])]}]})
@@ -939,6 +970,8 @@ SECOND_SESSION_WITNESS = {"spec": {"start": 2.0, "dt": 0.5, "stop": 5.0}, "compr
                                          "steps": [{"k": "multi", "n": 2, "settings": {}}], "extra": []}]}
 
 
+LOAD_WITNESS = {"spec": {"start": 2.0, "dt": 0.5, "stop": 6.0}, "compress": False, "startup": False, "diverge": ["end"],
+                "instances": [{"sms": ["smA"], "scs": ["a"], "eqs": ["s"], "steps": [{"k": "empty"}, {"k": "empty"}], "extra": []}]}
 CLOCK_WITNESS = {"spec": {"start": 0.0, "dt": 0.125, "stop": 2.0}, "compress": False,
                  "instances": [{"sms": ["smA"], "scs": ["a"], "eqs": ["s"], "steps": [{"k": "empty"}, {"k": "empty"}, {"k": "empty"}],
                                 "extra": [{"k": "empty"}, {"k": "empty"}]}]}
@@ -989,6 +1022,11 @@ def probe(base):
     _, _, v = run_case(SECOND_SESSION_WITNESS, base)
     facts["saveAfterEveryStepRequest"] = not v
     SAVES_AFTER_EVERY_STEP_REQUEST[0] = facts["saveAfterEveryStepRequest"]
+    # wave 9 -- save, end-session (no write), POST /load-state: the stored session is back
+    LOAD_INSTALLS_STORED[0] = True
+    _, _, v = run_case(LOAD_WITNESS, base)
+    facts["loadInstallsStored"] = not v
+    LOAD_INSTALLS_STORED[0] = facts["loadInstallsStored"]
     # wave 6 -- the restore applies no function to the clock (dt 0.125, three steps: clock 0.375), all three load paths
     _, _, v = run_case(CLOCK_WITNESS, base)
     facts["restoreKeepsClock"] = not any(k in ("session-clock-not-restored", "next-step-off-grid", "session-fields-not-restored") for k, _, _ in v)
@@ -1152,6 +1190,7 @@ def gen_lean(facts):
     sav = bool(facts.get("saveAfterEveryStepRequest"))
     clk = bool(facts.get("restoreKeepsClock"))
     pur = bool(facts.get("compressIsPure"))
+    lds = bool(facts.get("loadInstallsStored"))
     head = ("import Bptk.Props.C19\n/-! GENERATED by harness/props/c19.py from /repo on every run — do not edit. -/\n"
             "namespace Bptk.C19.Gen\n"
             f"/-- probed: decompress(compress(log)) keeps the step times: {facts['compressionKeepsSteps']}; "
@@ -1161,10 +1200,13 @@ def gen_lean(facts):
             f"written last is in the file): {sav}\n"
             f"-- the restored clock is the saved clock (dt 0.125, clock 0.375, lazy load / load-state / start-up): {clk}\n"
             f"def cfg : Cfg := {{ decoderResolvesRefs := {'true' if res else 'false'}, saveAfterEveryStepRequest := {'true' if sav else 'false'}, "
-            f"restoreKeepsClock := {'true' if clk else 'false'}, compressIsPure := {'true' if pur else 'false'} }}\n"
+            f"restoreKeepsClock := {'true' if clk else 'false'}, compressIsPure := {'true' if pur else 'false'}, "
+            f"loadInstallsStored := {'true' if lds else 'false'} }}\n"
+            f"-- save, end-session, POST /load-state: the instance holds the stored session again: {lds}\n"
             f"-- compress(A), compress(B), compress(A) give the same bytes for A, and B equals B compressed alone in a fresh process: {pur}\n"
             "theorem holds_all_codecs : C19_full := C19_full_holds\n#print axioms holds_all_codecs\n"
-            + ("theorem holds : C19_full_cfg cfg := C19_full_of_good cfg (by decide)\n#print axioms holds\n" if res and sav and clk and pur else
+            + ("theorem holds : C19_full_cfg cfg := C19_full_of_good cfg (by decide)\n#print axioms holds\n" if res and sav and clk and pur and lds else
+               "theorem violated : ¬ C19_full_cfg cfg := C19_witness_load_skips_live cfg (by decide)\n#print axioms violated\n" if res and sav and clk and pur else
                "theorem violated : ¬ C19_full_cfg cfg := C19_witness_compress_accumulates cfg (by decide)\n#print axioms violated\n" if res and sav and clk else
                "theorem violated : ¬ C19_full_cfg cfg := C19_witness_plain_reader cfg (by decide)\n#print axioms violated\n" if not res else
                "theorem violated : ¬ C19_full_cfg cfg := C19_witness_skip_save cfg (by decide)\n#print axioms violated\n" if not sav else
